@@ -68,6 +68,7 @@ def run(ctx, rep):
     rc = [r.expr(r.term(b).ops[0]) for b in range(len(r.blocks)) if r.term(b).op == 'br' and len(r.term(b).ops) == 3]
     rep.check(any('valid_size' in c and 'offset' in c for c in rc), 'R-C17-2', 'parity_read refuses offsets beyond valid_size', r.file, '', function='parity_read', construct='valid_size check')
 
+    valid_size_rules(P, rep, 'R-C17-2v')
     c = P.fn('parity_chsize')
     rep.analysed(c)
     dead = dead_blocks(c)
@@ -96,3 +97,31 @@ def run(ctx, rep):
     nw = [i for i in s.all_insts() if i.op == 'store' and s.expr(i.ops[1]).endswith('->need_write') and s.const_of(i.ops[0]) == 1]
     rep.rule('R-C17-4', 'changed split sizes set need_write, and the Q record carries them (R-C10-1/2)', 1)
     rep.check(bool(im2) and bool(nw), 'R-C17-4', 'state_sync: is_modified => need_write', s.file, '', function='state_sync', construct='need_write')
+
+
+def valid_size_rules(P, rep, rid):
+    """typestate of split->valid_size (how much of a parity file really holds parity): set from the file size when an existing file is
+    opened/created, raised only by parity_write to the end of the block just written, lowered only when the file shrank.  A grow never
+    raises it: the zero-filled area is not parity."""
+    from ..guards import guards_of
+    rep.rule(rid, 'split->valid_size: initialised at open, raised only by parity_write, only lowered by a resize', 4)
+    ALLOWED = {'parity_create': 'init', 'parity_open': 'init', 'parity_write': 'raise', 'parity_handle_chsize': 'lower'}
+    n = 0
+    for f in P.defined():
+        for i in f.all_insts():
+            if i.op == 'store' and f.expr(i.ops[1]).endswith('->valid_size') and 'split' in f.expr(i.ops[1]):
+                n += 1
+                kind = ALLOWED.get(base(f.name))
+                gs = guards_of(f, i)
+                val = f.expr(i.ops[0])
+                if kind == 'init':
+                    ok = 'st.st_size' in val and f.loop_of(i.block) is not None
+                elif kind == 'raise':
+                    ok = any(a.replace(' ', '') == '(split->valid_size<%s)' % val.replace(' ', '') and p for a, p in gs)
+                elif kind == 'lower':
+                    ok = any(a.replace(' ', '') == '(split->valid_size>%s)' % val.replace(' ', '') and p for a, p in gs)
+                else:
+                    ok = False
+                rep.check(ok, rid, '%s: valid_size = %s (%s)' % (base(f.name), val, kind or 'unclassified'), i.loc(), 'guards: %s' % [g for g in gs if 'valid_size' in g[0]], function=base(f.name), construct='valid_size %s' % (kind or 'unclassified'))
+                rep.analysed(f)
+    return n
